@@ -421,6 +421,109 @@ func c11r4(rc *core.RC) {
 	if n < 20 {
 		rc.Unknown("encoder/code-methods", token.NoPos, "found %d ToOpcode/Filter/Kind methods", n)
 	}
+	// value flow: no store through a pointer that was loaded out of the receiver's tree
+	// (for example an element of c.fields taken in a range loop and then modified)
+	for _, fn := range p.ModuleFuncs() {
+		if fn.Pkg == nil || fn.Pkg.Pkg.Path() != core.PkgPaths["encoder"] || fn.Signature.Recv() == nil || len(fn.Params) == 0 {
+			continue
+		}
+		switch fn.Name() {
+		case "ToOpcode", "ToAnonymousOpcode", "Filter", "Kind":
+		default:
+			continue
+		}
+		recv := fn.Params[0]
+		var fromRecv func(v ssa.Value, depth int, seen map[ssa.Value]bool) bool
+		fromRecv = func(v ssa.Value, depth int, seen map[ssa.Value]bool) bool {
+			if v == nil || depth > 12 || seen[v] {
+				return false
+			}
+			seen[v] = true
+			switch x := v.(type) {
+			case *ssa.Parameter:
+				return x == recv
+			case *ssa.FieldAddr:
+				return fromRecv(x.X, depth+1, seen)
+			case *ssa.Field:
+				return fromRecv(x.X, depth+1, seen)
+			case *ssa.IndexAddr:
+				return fromRecv(x.X, depth+1, seen)
+			case *ssa.Index:
+				return fromRecv(x.X, depth+1, seen)
+			case *ssa.Lookup:
+				return fromRecv(x.X, depth+1, seen)
+			case *ssa.Slice:
+				return fromRecv(x.X, depth+1, seen)
+			case *ssa.ChangeType:
+				return fromRecv(x.X, depth+1, seen)
+			case *ssa.Convert:
+				return fromRecv(x.X, depth+1, seen)
+			case *ssa.TypeAssert:
+				return fromRecv(x.X, depth+1, seen)
+			case *ssa.MakeInterface:
+				return fromRecv(x.X, depth+1, seen)
+			case *ssa.Extract:
+				return fromRecv(x.Tuple, depth+1, seen)
+			case *ssa.Next:
+				return fromRecv(x.Iter, depth+1, seen)
+			case *ssa.Range:
+				return fromRecv(x.X, depth+1, seen)
+			case *ssa.Phi:
+				for _, e := range x.Edges {
+					if fromRecv(e, depth+1, seen) {
+						return true
+					}
+				}
+			case *ssa.UnOp:
+				if x.Op != token.MUL {
+					return false
+				}
+				if al, ok := x.X.(*ssa.Alloc); ok {
+					// a local kept in memory: what was stored into it
+					for _, ref := range *al.Referrers() {
+						if st, ok := ref.(*ssa.Store); ok && st.Addr == al && fromRecv(st.Val, depth+1, seen) {
+							return true
+						}
+					}
+					return false
+				}
+				return fromRecv(x.X, depth+1, seen)
+			}
+			return false
+		}
+		k := 0
+		for _, b := range fn.Blocks {
+			for _, ins := range b.Instrs {
+				st, ok := ins.(*ssa.Store)
+				if !ok {
+					continue
+				}
+				var base ssa.Value
+				what := ""
+				switch a := st.Addr.(type) {
+				case *ssa.FieldAddr:
+					base = a.X
+					if stt, ok := a.X.Type().Underlying().(*types.Pointer); ok {
+						if sv, ok := stt.Elem().Underlying().(*types.Struct); ok {
+							what = "field " + sv.Field(a.Field).Name()
+						}
+					}
+				case *ssa.IndexAddr:
+					base, what = a.X, "element"
+				default:
+					continue
+				}
+				if !fromRecv(base, 0, map[ssa.Value]bool{}) {
+					continue
+				}
+				k++
+				rc.Bad(fmt.Sprintf("%s/tree-store#%d %s", core.SSAName(fn), k, what), st.Pos(), "%s stores into %s of an object it reached through its receiver: the receiver's tree is the cached, unfiltered program every later query is built from, so one call changes the next one's result", fn.Name(), what)
+			}
+		}
+		if k == 0 {
+			rc.OK(core.SSAName(fn)+"/tree-stores", fn.Pos(), "no store through a pointer loaded out of the receiver's tree")
+		}
+	}
 }
 
 // ---- C11.R5 results never alias package-level slices ----
